@@ -28,7 +28,7 @@ ASSUMPTIONS = [
 ]
 
 CODES = ['modify0', 'modify1', 'add', 'add_explicit', 'detach0', 'commit', 'abort',
-         'fail_begin<', 'fail_commit<', 'fail_vote<', 'fail_commit>', 'fail_vote>', 'reopen', 'other0']
+         'fail_begin<', 'fail_commit<', 'fail_vote<', 'fail_commit>', 'fail_vote>', 'reopen', 'other0', 'fail_pickle', 'add_child0']
 
 
 def _records_of(s, tid):
@@ -71,6 +71,8 @@ def _run(codes, storage):
             t = w.add(explicit=True)
         elif code == 'detach0':
             t = w.detach(0)
+        elif code == 'add_child0':
+            t = w.add_child(0)
         elif code == 'commit':
             root_changed = set(w.work) != set(w.committed) or getattr(w, 'work_scalar', None) != getattr(w, 'committed_scalar', None)
             t = w.commit()
@@ -98,6 +100,9 @@ def _run(codes, storage):
             t = w.abort()
         elif code == 'other0':
             t = w.other_commit(0)
+        elif code == 'fail_pickle':
+            t = w.unpicklable_commit()
+            check(w.s.lastTransaction() == before_last, 'failed commit stored a transaction')
         elif code.startswith('fail_'):
             phase = code[5:-1]
             t = w.failing_commit(phase, first=code.endswith('<'))
@@ -218,14 +223,14 @@ def h_multidb(c0: int, c1: int, c2: int, c3: int, n: int, storage: str) -> None:
 
 from zverif.harness.c14 import h_roundtrip as _roundtrip  # noqa: E402
 
-_FIRST = ['modify0', 'add', 'add_explicit', 'detach0', 'fail_vote<', 'fail_commit>', 'reopen', 'other0']
+_FIRST = ['modify0', 'add', 'add_explicit', 'detach0', 'fail_vote<', 'fail_commit>', 'reopen', 'other0', 'fail_pickle', 'add_child0']
 HARNESSES = [
     Harness('program', h_program,
             decides='after every step of any program: committed changes and newly reachable objects are stored together under one '
                     'id and are clean; after abort / failed commit (any phase) modified objects show their committed state and new '
                     'objects belong to no database and can be added again; close only outside a transaction; a reused connection '
                     'keeps no uncommitted state; other connections see only committed data',
-            symbolic='n step codes over 14 operations (incl. 5 failing-commit variants, close/reopen, and another connection committing a change so that our commit conflicts)',
+            symbolic='n step codes over 16 operations (incl. 5 failing-commit variants, a commit failing inside the connection while it serialises new objects, close/reopen, and another connection committing a change so that our commit conflicts)',
             bounds='program length n per shard (quick 3 exhaustively + length 4 split by first step; thorough up to 5), 2 committed objects at start',
             oracle='ownership/state model (zverif/progs.py) + records of each commit from storage iteration',
             code=['Connection.add/_register/commit/_commit/_store_objects/tpc_begin/tpc_vote/tpc_finish/tpc_abort/abort/_abort/'
